@@ -42,7 +42,16 @@ FNeg == {[k |-> "fneg", fw |-> fw, ka |-> ka] : fw \in {4, 8}, ka \in Ks}
 
 (* families: one initial state each, so that TLC's workers share the enumeration *)
 Fams == {[fam |-> f, w |-> t.w, s |-> t.s] : f \in {"bin", "shift", "un", "cast", "i2f"}, t \in IntTys}
-        \cup {[fam |-> f, w |-> 0, s |-> FALSE] : f \in {"f2i", "f2f", "fbin", "fneg"}}
+        \cup {[fam |-> f, w |-> 0, s |-> FALSE] : f \in {"f2i", "f2f", "fbin", "fneg", "boolchar"}}
+Bools == {<<0>>, <<1>>}
+Chars == {<<0>>, <<65>>, <<97>>, <<127>>, <<128>>, <<255>>}
+BoolChar ==
+    {[k |-> "bbin", op |-> op, a |-> a, b |-> b] : op \in {"land", "lor", "and", "or", "eq", "ne"}, a \in Bools, b \in Bools}      \* (no ~ on bool)
+    \cup {[k |-> "bnot", a |-> a] : a \in Bools}
+    \cup {[k |-> "ccmp", op |-> op, a |-> a, b |-> b] : op \in {"eq", "ne"}, a \in Chars, b \in Chars}  \* chars are not ordered
+    \cup {[k |-> "b2i", a |-> a, w2 |-> u.w, s2 |-> u.s] : a \in Bools, u \in IntTys}
+    \cup {[k |-> "c2i", a |-> a, w2 |-> u.w, s2 |-> u.s] : a \in Chars, u \in IntTys}
+    \cup {[k |-> "i2c", a |-> a] : a \in Chars}
 CasesOf(F) ==
     LET t == [w |-> F.w, s |-> F.s] IN
     CASE F.fam = "bin" -> BinOf(t)
@@ -54,6 +63,7 @@ CasesOf(F) ==
       [] F.fam = "f2f" -> F2F
       [] F.fam = "fbin" -> FBin
       [] F.fam = "fneg" -> FNeg
+      [] F.fam = "boolchar" -> BoolChar
 IsFam(x) == "fam" \in DOMAIN x
 
 Init == c \in Fams
